@@ -101,12 +101,13 @@ Theorem C19_no_panic : forall (trim : str -> str) (cd : codecs) (e : env) (w : w
 Proof. exact handle_no_panic. Qed.
 Print Assumptions C19_no_panic.
 
-(* every switch of the model but the one of GetBindingHistoryDetail (found with the second group of
-   methods, not yet repaired in /repo) is in the repaired position for the code as it stands *)
+(* every switch of the model but the two found with the second group of methods and the after-Stop state
+   (GetBindingHistoryDetail, GetManagedAddressByScriptHashInCurrent: not yet repaired in /repo) is in the
+   repaired position for the code as it stands *)
 Example C19_current_code_switches :
   current_code = {| fx_cti_index := true; fx_cti_block := true; fx_cti_dup := true; fx_senders := true; fx_sign_meta := true;
                     fx_sign_len0 := true; fx_cur_nil := true; fx_cur3_nil := true; fx_import_rec := true; fx_taskchan := true;
-                    fx_select_neg := true; fx_bindhist_hash := false |}.
+                    fx_select_neg := true; fx_cur_evicted := false; fx_bindhist_hash := false |}.
 Proof. exact current_code_switches. Qed.
 
 (* T4: one lemma for every switch setting: a panic can only come from a site whose repair is switched
@@ -119,13 +120,13 @@ Print Assumptions C19_panic_only_at_unrepaired_sites.
 
 (* T5: the gRPC API proper, used sequentially after start-up, could panic in the code as found ONLY at
    the three pending-input sites (the other witnesses above need the WalletManager called directly, a
-   race with the background removal, or a request during start-up) and at the two sites of
-   GetBindingHistory (T8) *)
+   race with the background removal, or a request during start-up), at the two sites of
+   GetBindingHistory (T8) and at the cache look-up of ValidateAddress (T11) *)
 Theorem C19_api_as_found_only_pending_sites : forall trim cd e w r p,
   wf w -> wf_env e -> selected_ok w e -> req_ok r -> api_request r ->
   sequential w -> taskchan w = true ->
   handle trim cd as_found e w r = Panic p ->
-  p = PCtiIndex \/ p = PCtiBlockNil \/ p = PSignMetaNil \/ p = PBindHistIndex \/ p = PBindHistTargetNil.
+  p = PCtiIndex \/ p = PCtiBlockNil \/ p = PSignMetaNil \/ p = PBindHistIndex \/ p = PBindHistTargetNil \/ p = PCurEvictedNil.
 Proof. exact api_as_found_panics_only_at_pending_sites. Qed.
 Print Assumptions C19_api_as_found_only_pending_sites.
 
@@ -185,12 +186,12 @@ Proof. exact bind_history_as_found_refuted. Qed.
 Print Assumptions C19_binding_history_refuted.
 
 (* T9: the code as it stands — every request kind, every well-formed state and environment — can panic only at
-   those two sites ... *)
-Theorem C19_current_code_only_binding_history_sites : forall trim cd e w r p,
+   those two sites and at the one of T11 ... *)
+Theorem C19_current_code_only_known_sites : forall trim cd e w r p,
   wf w -> wf_env e -> selected_ok w e -> req_ok r ->
-  handle trim cd current_code e w r = Panic p -> p = PBindHistIndex \/ p = PBindHistTargetNil.
-Proof. exact current_code_panics_only_at_binding_history_sites. Qed.
-Print Assumptions C19_current_code_only_binding_history_sites.
+  handle trim cd current_code e w r = Panic p -> p = PBindHistIndex \/ p = PBindHistTargetNil \/ p = PCurEvictedNil.
+Proof. exact current_code_panics_only_at_known_sites. Qed.
+Print Assumptions C19_current_code_only_known_sites.
 
 (* ... and GetBindingHistory panics only with the unrepaired code and only while some MINED row's transaction is
    no longer at the recorded place of the node's chain: a wallet that has followed the node never panics *)
@@ -200,6 +201,27 @@ Theorem C19_binding_history_panic_needs_lagging_row : forall trim cd fx e w t p,
   exists row, In row (e_bind_rows e) /\ br_mined row = true /\ br_same row = false.
 Proof. exact binding_history_panic_needs_lagging_row. Qed.
 Print Assumptions C19_binding_history_panic_needs_lagging_row.
+
+(* T11: ValidateAddress after the keystore cache has lost the keystore that is still selected (genuine defect of
+   the unchanged code, reproduced by scenario "stopped": after WalletManager.Stop has closed the database
+   WalletManager.NewAddress fails, drops the cached keystore by name in order to reload it, and the reload fails
+   too — CreateAddress gets there when Stop closes the database after its GetAddresses call, or under two storage
+   faults; GetManagedAddressByScriptHashInCurrent then indexes the nil map entry). Repaired model: ErrCurrentKeystoreNotFound. *)
+Theorem C19_cur_evicted_refuted :
+  wf w_evicted /\ wf_env env0 /\
+  handle id_trim cd0 as_found env0 w_evicted (RValidateAddress [109]) = Panic PCurEvictedNil /\
+  handle id_trim cd0 current_code env0 w_evicted (RValidateAddress [109]) = Panic PCurEvictedNil /\
+  handle id_trim cd0 all_fixed env0 w_evicted (RValidateAddress [109]) = Err ErrAPINoWalletInUse /\
+  handle id_trim cd0 as_found env0 w_evicted (RValidateAddress [122]) = Ok tt /\
+  handle id_trim cd0 as_found env0 w_evicted (RGetWalletBalance 1 true) = Err ErrAPINoWalletInUse.
+Proof. exact cur_evicted_refuted. Qed.
+Print Assumptions C19_cur_evicted_refuted.
+
+Theorem C19_validate_address_panic_needs_evicted : forall trim cd fx e w a p,
+  handle trim cd fx e w (RValidateAddress a) = Panic p ->
+  p = PCurEvictedNil /\ fx_cur_evicted fx = false /\ evicted w = true.
+Proof. exact validate_address_panic_needs_evicted. Qed.
+Print Assumptions C19_validate_address_panic_needs_evicted.
 
 (* T10: the pieces of the second group on their own. Serving a block or a transaction (getTxType, createVinList):
    inputs that refer to existing outputs are listed without a panic; GetBlockStakingReward reads only outputs
